@@ -234,6 +234,10 @@ def run_history(case: dict, want_store: bool = False, alias_probe: bool = True) 
                 if kind == "postprocess":
                     check(i + 1)
                     continue
+                if kind == "build":
+                    # a full rebuild of the open project (files are read from disk): whatever the updates before it left behind
+                    project.build(1)
+                    continue
                 fid = FileId(op["path"])
                 disk = root / "source" / op["path"]
                 envp = envd / "source" / op["path"]
